@@ -131,6 +131,8 @@ def _main(prop, mod, modname, tier, seed, replay, ncases, no_prove, workdir, t0)
         evaluated += 1
         m = model[c["case_no"]]
         disc = mod.compare(c, res, m)
+        if getattr(mod, "INPUT_CONTRACT", False):
+            disc = fw.input_contract(c, res) + list(disc)
         for k, v in tracegen.features(c).items():
             hist[k] = hist.get(k, 0) + v
         if mod.nontrivial(c, res):
